@@ -30,6 +30,7 @@ pub fn run_and_compare(p: &Program) -> Verdict {
         sim::with_core(|c| c.probe(pr));
     }
     let expected_n = m.emits.len();
+    sim::with_core(|c| c.budget = 100_000);
     let res = std::panic::catch_unwind(std::panic::AssertUnwindSafe(|| gen::run_real(p, None, Some(m.emits.clone()))));
     let budget_hit = sim::with_core(|c| c.budget_hit);
     match res {
